@@ -9,10 +9,6 @@ use crate::common::{alc, lct, oti, partition, pkt, Profile};
 use crate::tools;
 use std::time::SystemTime;
 
-pub use crate::common::oti::{
-    RaptorQSchemeSpecific, RaptorSchemeSpecific, ReedSolomonGF2MSchemeSpecific, SchemeSpecific,
-};
-
 /// RFC 5052 block partitioning as computed by the library
 /// returns (a_large, a_small, nb_a_large, nb_blocks)
 pub fn block_partitioning(b: u64, l: u64, e: u64) -> (u64, u64, u64, u64) {
@@ -168,4 +164,60 @@ pub struct ReceiverSnapshot {
     pub fdt_current: Vec<(u32, u8)>,
     /// close session seen
     pub closing: bool,
+}
+
+/// Set the number of source blocks (Z) of a RaptorQ / Raptor OTI, as the sender does when an
+/// object is added.  Returns false if the OTI has no such scheme specific information.
+pub fn set_source_blocks_length(oti: &mut oti::Oti, z: u32) -> bool {
+    match oti.scheme_specific.as_mut() {
+        Some(oti::SchemeSpecific::RaptorQ(s)) => {
+            s.source_blocks_length = z as u8;
+            true
+        }
+        Some(oti::SchemeSpecific::Raptor(s)) => {
+            s.source_blocks_length = z as u16;
+            true
+        }
+        _ => false,
+    }
+}
+
+/// Scheme specific information of an OTI as (kind, Z, N, Al, m, g); kind is 0 when absent,
+/// 6 for RaptorQ, 1 for Raptor, 2 for Reed-Solomon GF(2^m)
+pub fn scheme_specific_fields(oti: &oti::Oti) -> (u8, u32, u32, u32, u32, u32) {
+    match oti.scheme_specific.as_ref() {
+        None => (0, 0, 0, 0, 0, 0),
+        Some(oti::SchemeSpecific::RaptorQ(s)) => (
+            6,
+            s.source_blocks_length as u32,
+            s.sub_blocks_length as u32,
+            s.symbol_alignment as u32,
+            0,
+            0,
+        ),
+        Some(oti::SchemeSpecific::Raptor(s)) => (
+            1,
+            s.source_blocks_length as u32,
+            s.sub_blocks_length as u32,
+            s.symbol_alignment as u32,
+            0,
+            0,
+        ),
+        Some(oti::SchemeSpecific::ReedSolomon(s)) => (2, 0, 0, 0, s.m as u32, s.g as u32),
+    }
+}
+
+/// Build a Reed-Solomon GF(2^m) OTI (there is no public constructor)
+pub fn new_rs2m_oti(e: u16, b: u32, parity: u32, m: u8, g: u8) -> oti::Oti {
+    oti::Oti {
+        fec_encoding_id: oti::FECEncodingID::ReedSolomonGF2M,
+        fec_instance_id: 0,
+        maximum_source_block_length: b,
+        encoding_symbol_length: e,
+        max_number_of_parity_symbols: parity,
+        scheme_specific: Some(oti::SchemeSpecific::ReedSolomon(
+            oti::ReedSolomonGF2MSchemeSpecific { m, g },
+        )),
+        inband_fti: true,
+    }
 }
